@@ -74,10 +74,19 @@ def candidates(path):
 def run(cmd, cwd, timeout=1800, env=None):
     e = dict(os.environ)
     e.update(env or {})
+    # own process group, so that a timeout also ends grandchildren (a mutant that loops forever
+    # inside one of the repository's test binaries)
+    p = subprocess.Popen(cmd, cwd=cwd, shell=True, stdout=subprocess.PIPE, stderr=subprocess.STDOUT, text=True, env=e, start_new_session=True)
     try:
-        r = subprocess.run(cmd, cwd=cwd, shell=True, capture_output=True, text=True, timeout=timeout, env=e)
-        return r.returncode, r.stdout + r.stderr
+        out, _ = p.communicate(timeout=timeout)
+        return p.returncode, out
     except subprocess.TimeoutExpired:
+        import signal
+        try:
+            os.killpg(p.pid, signal.SIGKILL)
+        except ProcessLookupError:
+            pass
+        p.wait()
         return 124, "timeout"
 
 
